@@ -62,4 +62,6 @@ MUTANTS = [
     m("c10-twin-product-array-regrouped", None, "        _array = rect_matrix @ (pos_def_matrix @ rect_matrix.T.array)", "        _array = (rect_matrix @ pos_def_matrix) @ rect_matrix.T.array", twin=True),
     m("c10-sqrt-from-inverse-cache", "R9", "        if self._sqrt is None:\n            self._sqrt = self._construct_sqrt()\n", "        if self._sqrt is None:\n            inv = self._inv\n            if isinstance(inv, PositiveDefiniteMatrix) and inv._sqrt is not None:\n                self._sqrt = inv._sqrt.inv\n            else:\n                self._sqrt = self._construct_sqrt()\n", key="slot-source"),
     m("c10-inv-returns-fresh", "R9", "        if self._inv is None:\n            self._inv = self._construct_inv()\n        return self._inv", "        if self._inv is None:\n            self._inv = self._construct_inv()\n        return self._construct_inv()", key="returns"),
+    m("c10-triangular-only-lower-enforced", "R6", '        array = _make_array_triangular(array, lower=lower) if make_triangular else array\n', '        array = _make_array_triangular(array, lower=lower) if make_triangular and lower else array\n'),
+    m("c10-twin-triangular-if-statement", None, '        array = _make_array_triangular(array, lower=lower) if make_triangular else array\n', '        if make_triangular:\n            array = _make_array_triangular(array, lower=lower)\n', twin=True),
 ]
